@@ -166,8 +166,13 @@ __CPROVER_ensures(CMD_OF(context)->callback != NULL ==>
 /* Ghost instantiation rule: gh_nul / gh_buf / gh_buflen are pure ghosts (no executable code reads them), so a
  * requirement that merely ties them to the arguments can always be met by choosing the ghosts; a caller's job
  * therefore uses the contract without the ties and without the ensures that mention them (PARSE_CALLER_VIEW). */
+/* What a caller DOES owe is a NUL at or behind the end of the line (the numeric converters stop there).  A caller's job
+ * names where that NUL is with gh_fill, a witness its own contract ties to its arguments (SCPI_Input: the fill level after
+ * the append), and the byte is checked at every call. */
+extern size_t gh_fill;
 #ifdef PARSE_CALLER_VIEW
-#define LINE_PRE(data, len) ((len) >= 0 && (len) <= LEXMAX && __CPROVER_is_fresh(data, (size_t)(len) + 1))
+#define LINE_PRE(data, len) ((len) >= 0 && (len) <= LEXMAX && __CPROVER_is_fresh(data, (size_t)(len) + 1) \
+    && gh_fill >= (size_t)(len) && __CPROVER_r_ok(data, gh_fill + 1) && (data)[gh_fill] == 0)
 #else
 #define LINE_PRE(data, len) ((len) >= 0 && (len) <= LEXMAX && gh_nul >= (size_t)(len) && gh_nul <= LEXMAX + 16 && __CPROVER_is_fresh(data, gh_nul + 1) \
     && (data)[gh_nul] == 0 && gh_buf == (data) && gh_buflen == (size_t)(len))
@@ -199,6 +204,8 @@ __CPROVER_requires(CTX_ERR_PRE(context) && IFACE_WRITE_OK(context) && CMDLIST_PR
 __CPROVER_requires(context->buffer.length >= 2 && context->buffer.length <= LEXMAX && context->buffer.position < context->buffer.length
     && __CPROVER_is_fresh(context->buffer.data, context->buffer.length))
 __CPROVER_requires(len >= 0 && len <= LEXMAX && (len == 0 || __CPROVER_is_fresh(data, (size_t) len)))
+/* ghost tie: the witness for "a NUL bounds every line handed to SCPI_Parse" is the fill level after this call's append */
+__CPROVER_requires(gh_fill == context->buffer.position + (size_t) len)
 __CPROVER_assigns(INPUT_FRAME(context))
 __CPROVER_ensures(QINV(EQ(context)) && QSAME(EQ(context)) && COH_REGS(context) && COH_QMA(context))
 /* the buffer stays NUL-terminated inside its bounds */
